@@ -78,16 +78,12 @@ func (j *Job) Cancel() {
 	if j == nil || j.done == nil {
 		return
 	}
-	if j.Status >= StatusCompleted {
-		// Something happened and didn't close done.
-		if j.done != nil {
-			// NOTE(dij): I don't think this will panic, but I need to test to
-			//            be 100% sure.
-			close(j.done)
-		}
+	j.s.lock.Lock()
+	if j.done == nil {
+		// Finished by a result or another Cancel while we waited for the lock.
+		j.s.lock.Unlock()
 		return
 	}
-	j.s.lock.Lock()
 	if j.s.jobs == nil || len(j.s.jobs) == 0 {
 		close(j.done)
 		j.Status, j.done = StatusCanceled, nil
@@ -96,7 +92,7 @@ func (j *Job) Cancel() {
 		j.s.lock.Unlock()
 		return
 	}
-	if _, ok := j.s.jobs[j.ID]; !ok {
+	if v, ok := j.s.jobs[j.ID]; !ok || v != j {
 		close(j.done)
 		j.Status, j.done = StatusCanceled, nil
 		j.s.lock.Unlock()
